@@ -121,6 +121,15 @@ class MemBackend(TrialBackend):
             return {"ck_exists": rec.get("trial") in self.ckpt, "ck_level": self.ckpt.get(rec.get("trial"))}
         if name == "start_trial" and rec.get("ckpt") is not None:
             return {"src_exists": rec["ckpt"] in self.ckpt}
+        if name == "fetch_status_results":
+            parsed, emitted = {}, {}
+            for t in rec.get("trials", []):
+                try:
+                    parsed[int(t)] = len(retrieve(log_lines=self.stdout(t)))
+                except Exception as e:
+                    parsed[int(t)] = "exc:%s" % type(e).__name__
+                emitted[int(t)] = sum(r.n_reports for r in self.runs.get(t, []))
+            return {"parsed": parsed, "emitted": emitted}
         return {}
 
     def copy_checkpoint(self, src_trial_id, tgt_trial_id):
